@@ -22,6 +22,7 @@ import vcheck as vc
 
 PROP = "C12"
 FID_YAML_BIG = "F-C12-yaml-bigint-string"
+FID_YAML_NUM = "F-C12-yaml-number-literal"
 
 # ---------------------------------------------------------------------------
 # values (the codec of spec/Encoder.tla)
@@ -291,6 +292,32 @@ def yaml_values(r, quick):
     return out, big
 
 
+def yaml_input_docs(r, quick):
+    """YAML documents whose scalars look like numbers in YAML's wider syntax (and things near it): what
+    `gojq --yaml-input -c .` prints for them must be JSON"""
+    scal = []
+    for sign in ("", "+", "-"):
+        for ip in ("", "0", "1", "12", "00", "01", "08", "1_000"):
+            for fr in ("", ".", ".0", ".5", ".50"):
+                for ex in ("", "e1", "E+2", "e-3", "e01"):
+                    if ip or fr not in ("", "."):
+                        scal.append(sign + ip + fr + ex)
+    scal += ["0x10", "-0x1F", "0o17", "017", "0b11", "0x_1", "1__0", "1_", ".inf", "-.inf", "+.inf", ".Inf", ".NaN", ".nan", "1:30", "190:20:30", "1e400",
+             "-1e400", "1e-400", "0.1e1", "123456789012345678901234567890", "-123456789012345678901234567890", "0.000000000000000000001", "1.7976931348623157e309",
+             "1e", "1e+", "+.", ".e1", "_1", "1,5", "1 000", "0x", "0o8", "+0x10", "0xg", "1.5.1", "--1", "+-1", "1-", "1+1", "~", "null", "true", "2001-01-01"]
+    if quick:
+        scal = r.sample(scal[:-40], 220) + scal[-40:]
+    docs = []
+    for i in range(0, len(scal), 30):
+        part = scal[i:i + 30]
+        docs.append("".join("- %s\n" % x for x in part))
+        docs.append("".join("k%d: %s\n" % (j, x) for j, x in enumerate(part)))
+        docs.append("[" + ", ".join(part) + "]\n")
+        docs.append("".join("%s: %d\n" % (x, j) for j, x in enumerate(part)))          # as keys: strings
+    docs += ["+1\n", "1.\n", "---\n+1\n---\n-.5\n", "a: [+1, {b: 1.}]\n"]
+    return [list(d.encode()) for d in docs]
+
+
 def rand_yaml_value(r, depth):
     while True:
         v = rand_value(r, depth)
@@ -332,7 +359,8 @@ def validate(work, recs, tag, timeout, per_shard_min=12):
 
 def modes_of(case):
     n = len(case["vs"])
-    return (8 * n if case.get("lib") else 0) + n * len(case.get("cli") or []) + (2 * n if case.get("dbg") else 0) + (n if case.get("yaml") else 0)
+    return (8 * n if case.get("lib") else 0) + n * len(case.get("cli") or []) + (2 * n if case.get("dbg") else 0) + (n if case.get("yaml") else 0) + \
+        (1 if case.get("yin") else 0)
 
 
 def part_case(case, fail):
@@ -344,6 +372,8 @@ def part_case(case, fail):
         return {"vs": case["vs"], "dbg": True}
     if k.startswith("yaml."):
         return {"vs": case["vs"], "yaml": True}
+    if k.startswith("yamlin."):
+        return {"vs": [], "yin": case["yin"]}
     return {"vs": [case["vs"][fail["i"] - 1]], "lib": True}
 
 
@@ -394,16 +424,20 @@ class Checker:
                 self.rep.count("traces_validated_against_impl", m)
                 for x in case["vs"]:
                     self.rep.nontrivial(x)
-                if self.n % 97 == 0:
+                if case.get("yin"):
+                    self.rep.nontrivial(case["yin"])
+                if self.n % 97 == 0 and case["vs"]:
                     self.sample(case, rec)
                 self.n += 1
             else:
                 self.bump("mismatch")
+                if all(self.finding_of(f) for f in v["fails"]) and self.report_finding(case, rec, v):
+                    continue            # explained exactly by a deviation switch of the specification: a listed / proposed finding
                 pending.append((case, rec, v))
-        for case, rec, v in pending[:40]:
+        for case, rec, v in pending[:12]:
             self.classify(case, rec, v, tag)
-        if len(pending) > 40:
-            self.rep.notes.append("%d further mismatching records were not analysed" % (len(pending) - 40))
+        if len(pending) > 12:
+            self.rep.notes.append("%d further mismatching records were not analysed" % (len(pending) - 12))
         return recs, verdicts
 
     def sample(self, case, rec):
@@ -433,7 +467,7 @@ class Checker:
                 continue
             # shrink to a single value when the sub-case has several
             best, brec, bv = sub, recs2[0], v2
-            if len(sub["vs"]) > 1:
+            if len(sub.get("vs", [])) > 1:
                 singles = [dict(sub, vs=[x]) for x in sub["vs"]]
                 recs3, vs3 = self.recheck(singles, tag + "s")
                 for c3, r3, v3 in zip(singles, recs3, vs3):
@@ -442,21 +476,41 @@ class Checker:
                         break
             self.report(best, brec, bv)
 
+    @staticmethod
+    def finding_of(f):
+        return {("yaml.roundtrip", "bigint-as-string"): FID_YAML_BIG,
+                ("yamlin.wellformed", "yaml-number-literal"): FID_YAML_NUM}.get((f["k"], f.get("dev")))
+
+    def report_finding(self, case, rec, v):
+        """every failed check of the record carries a deviation tag: count it as that finding (never a violation
+        unless the finding is recorded as fixed)"""
+        fid = self.finding_of(v["fails"][0])
+        status = self.listed.get(fid)
+        if status == "fixed":
+            return False
+        self.bump("finding:" + fid)
+        if fid == FID_YAML_BIG:
+            what = "--yaml-output writes the *big.Int %s as a quoted string; --yaml-input reads a string back" % show(case["vs"][0], 60)
+        else:
+            what = "--yaml-input hands YAML number literals through verbatim: stdout %r is not JSON" % bytes(rec["yin"]["out"][:80]).decode("latin1")
+        if status == "open":
+            self.rep.known_finding(fid, what)
+        elif self.counters["finding:" + fid] == 1:
+            vc.log("finding %s matched (not listed in known_findings.json): %s" % (fid, what))
+        return True
+
     def report(self, case, rec, v):
         f = v["fails"][0]
         kinds = sorted({x["k"] for x in v["fails"]})
-        if kinds == ["yaml.roundtrip"] and f.get("dev") == "bigint-as-string":
-            status = self.listed.get(FID_YAML_BIG)
-            if status != "fixed":
-                self.bump("finding_yaml_bigint")
-                if status == "open":
-                    self.rep.known_finding(FID_YAML_BIG, "--yaml-output writes the *big.Int %s as a quoted string; --yaml-input reads a string back" % show(case["vs"][0], 60))
-                elif self.counters["finding_yaml_bigint"] == 1:
-                    vc.log("finding %s matched (not listed in known_findings.json): %s" % (FID_YAML_BIG, show(case["vs"][0], 60)))
-                return
+        if all(self.finding_of(x) for x in v["fails"]) and self.report_finding(case, rec, v):
+            return
         actual, what = {}, ""
         k = f["k"]
-        if k.startswith("cli."):
+        if k.startswith("yamlin."):
+            y = rec["yin"]
+            actual = {"status": y["status"], "stdout": bytes(y["out"][:2000]).decode("latin1"), "stderr": y.get("err")}
+            what = "gojq --yaml-input -c . on %r: stdout %r is not well-formed JSON" % (bytes(case["yin"][:300]).decode("latin1"), actual["stdout"][:300])
+        elif k.startswith("cli."):
             r = rec["cli"][0]
             actual = {"status": r["status"], "stdout": bytes(r["out"][:4000]).decode("latin1"), "stderr": r.get("err")}
             what = "gojq %s on %s: stdout %r" % (json.dumps(r["cfg"]), show(case["vs"][0]), actual["stdout"][:300])
@@ -506,7 +560,7 @@ def run(tier, seed, replay):
     rep = vc.Report(PROP, tier, seed)
     rep.assumptions += ["TLC evaluates the specification correctly",
                         "strconv's shortest-digit generation for float64 is a leaf (the digits are logged, everything done with them is modelled)",
-                        "the YAML codec is third party: only the law over the logged (written text, value read back) pair is checked",
+                        "the YAML codec is third party: only laws over logged pairs are checked (written text -> value read back; YAML document -> printed JSON is well-formed)",
                         "values reach the command through a generated jq program (literals, tonumber, --arg, --rawfile, --argjson)"]
     vh, gojq = vc.build()
     work = vc.Work(PROP)
@@ -530,14 +584,16 @@ def run(tier, seed, replay):
         r.shuffle(uni)
         cases = []
         for i in range(0, len(uni), 8):
-            cfgs = list(base) + ([r.choice(odd)] if quick else odd) + colour_cfgs(r, 2 if quick else 5)
-            if not quick:
-                cfgs += [{"raw": "r"}, {"raw": "j", "c": True}]
-            elif i % 64 == 0:
-                cfgs += [{"raw": r.choice(["r", "j"]), **r.choice(base)}]
+            if quick:       # every value, sampled configurations
+                cfgs = [{"c": True}, {}, {"tab": True}] + r.sample(base[2:12], 4) + [r.choice(odd)] + colour_cfgs(r, 2)
+                if i % 64 == 0:
+                    cfgs += [{"raw": r.choice(["r", "j"]), **r.choice(base)}]
+            else:           # every value x every configuration
+                cfgs = list(base) + odd + colour_cfgs(r, 5) + [{"raw": "r"}, {"raw": "j", "c": True}]
             cases.append({"vs": uni[i:i + 8], "lib": True, "cli": cfgs, "dbg": (i % (80 if quick else 16) == 0)})
         ck.check(cases, "u", timeout=900 if quick else 3000)
-        rep.cov["exhaustive"] = True
+        rep.cov["universe_values_exhaustive"] = True
+        rep.cov["exhaustive"] = not quick          # quick samples the configurations per value
 
         # 2. seeded random strings and values
         cases = []
@@ -565,6 +621,8 @@ def run(tier, seed, replay):
         # 6. YAML: written with --yaml-output, read back with --yaml-input
         yv, ybig = yaml_values(r, quick)
         cases = [{"vs": vs, "yaml": True} for vs in yv + ybig]
+        ydocs = yaml_input_docs(r, quick)
+        cases += [{"vs": [], "yin": d} for d in ydocs]
         rep.cov["yaml_cases"] = len(cases)
         ck.check(cases, "y", timeout=900 if quick else 3000, per_shard_min=6)
 
